@@ -141,7 +141,7 @@ def run_job(job):
         src = frontend.load(contract.file)
         res['src_sha'] = src.sha
         fn = src.find(contract.func)
-        ex = Executor(fn, contract, instance=inst, prune=contract.options.get('prune', True))
+        ex = Executor(fn, contract, instance=inst, prune=contract.options.get('prune', True) and not os.environ.get('PYVC_NO_PRUNE'))
         obs = ex.run()
         res['paths'] = ex.npaths
         res['notes'] = sorted(set(ex.notes))
